@@ -453,9 +453,18 @@ def profile_steps(repo, name: str) -> List[str]:
 
 def check_profiles(ctx: Ctx, profiles=("defaultOptimizer", "fastOptimizer", "defaultOptimizerDebug")):
     repo = ctx.repo
+    xmod = repo.module(XF)
+    base = repo.cls(BASE)
+    covered = set(TRANSFORMERS) | {"merge_expressions", "apply_cse", "print_step"} | {n for n, ci in xmod.classes.items() if base in ci.mro()}
+    checked_steps = set()
     for pname in profiles:
         steps = profile_steps(repo, pname)
         c = f"{BO}.{pname}"
+        for st in steps:
+            if st in covered or st in checked_steps:
+                continue
+            checked_steps.add(st)
+            ctx.section(check_unknown_step, ctx, pname, st)
 
         def pos(s):
             return steps.index(s) if s in steps else None
@@ -470,3 +479,101 @@ def check_profiles(ctx: Ctx, profiles=("defaultOptimizer", "fastOptimizer", "def
             ctx.check(steps.count("transform_or2and") >= 1 and all(s not in ("merge_expressions", "apply_cse") for s in steps[pos("transform_or2and"):]), "RW-ORDER", None, "no simplifier after transform_or2and", "nothing re-introduces n-ary Or after normalisation", "merge_expressions/apply_cse run after transform_or2and and can re-introduce n-ary Or", construct=c)
         if pos("apply_cse") is not None and pos("merge_expressions") is not None:
             ctx.check(pos("merge_expressions") < pos("apply_cse"), "RW-ORDER", None, "merge before cse", "inlining precedes sharing", "apply_cse before merge_expressions: the shared definitions are inlined away / _ret filter drops them", construct=c)
+
+
+def check_unknown_step(ctx: Ctx, pname: str, st: str):
+    """A profile step that is none of the rewrites verified above.  The one kind the tables describe is a filter of
+    the definition list (dead-definition removal): dropping `s = e` is sound only if no later kept definition reads
+    this binding of s, i.e. the scan is a backward liveness analysis whose transfer is  live = (live - {s}) | uses(e):
+    the binding defined here is killed BEFORE its own uses are added (s may read its previous binding, as in the
+    front end's `c = ITE(t, v, c)`).  Any other new step is undecided."""
+    repo = ctx.repo
+    fi = repo.maybe_func(f"{BO}.{st}") or repo.maybe_func(f"{XF}.{st}")
+    anchor = f"{BO}.{pname}"
+    if fi is None:
+        raise AnchorError(anchor, f"step `{st}` is not one of the verified rewrites and its definition was not found")
+    if len(fi.params) < 1:
+        raise AnchorError(fi.short, "profile step without a parameter")
+    ex = fi.params[0]
+    loops = [l for l in q.for_loops(fi.node) if ex in q.names_in(l.iter)]
+    if len(loops) != 1 or not (isinstance(loops[0].target, ast.Tuple) and len(loops[0].target.elts) == 2 and all(isinstance(e, ast.Name) for e in loops[0].target.elts)):
+        raise AnchorError(fi.short, f"step `{st}` of {pname} is not one of the verified rewrites and is not a single scan over (symbol, expression) pairs: undecided")
+    l = loops[0]
+    sym, exp = l.target.elts[0].id, l.target.elts[1].id
+    backward = q.reversal_parity(l.iter)[1] == 1
+    # the live set: a name bound to an empty set before the loop and updated inside it
+    updates = []
+    for n in ast.walk(l):
+        if isinstance(n, ast.Assign) and len(n.targets) == 1 and isinstance(n.targets[0], ast.Name):
+            updates.append((n.targets[0].id, n))
+        elif isinstance(n, ast.AugAssign) and isinstance(n.target, ast.Name):
+            updates.append((n.target.id, n))
+        elif isinstance(n, ast.Expr) and isinstance(n.value, ast.Call) and isinstance(n.value.func, ast.Attribute) and isinstance(n.value.func.value, ast.Name) and n.value.func.attr in ("update", "discard", "remove", "add", "difference_update"):
+            updates.append((n.value.func.value.id, n))
+    def is_gen(e) -> bool:
+        return exp in q.names_in(e)
+    def is_kill(e) -> bool:
+        return sym in q.names_in(e) and exp not in q.names_in(e)
+    lives = sorted({v for v, n in updates if any(is_gen(x) for x in ast.walk(n) if isinstance(x, ast.expr))})
+    if len(lives) != 1:
+        raise AnchorError(fi.short, f"step `{st}` of {pname} scans the definition list but is not a liveness filter the tables describe ({len(lives)} candidate live sets): undecided")
+    live = lives[0]
+    role = "dead-definition removal kills the defined symbol before adding the uses of its definition"
+    ctx.check(backward, "RW-DEFS", fi, "liveness is computed backwards over the definition list", norm(l.iter), f"`for {sym}, {exp} in {norm(l.iter)}` runs forwards: whether a definition is read later is not known when it is met", l)
+    events = []  # (order, kind)
+    from ..core import order_key
+    for v, n in updates:
+        if v != live:
+            continue
+        if isinstance(n, ast.Assign):
+            e = n.value
+            # (live | G) - K  : gen then kill ; (live - K) | G : kill then gen
+            def seq(e):
+                if isinstance(e, ast.BinOp) and isinstance(e.op, (ast.BitOr, ast.Sub)):
+                    inner = seq(e.left)
+                    if inner is None:
+                        return None
+                    if isinstance(e.op, ast.BitOr) and is_gen(e.right):
+                        return inner + ["gen"]
+                    if isinstance(e.op, ast.Sub) and is_kill(e.right):
+                        return inner + ["kill"]
+                    return None
+                if isinstance(e, ast.Call) and isinstance(e.func, ast.Attribute) and e.func.attr in ("union", "difference") and len(e.args) == 1:
+                    inner = seq(e.func.value)
+                    if inner is None:
+                        return None
+                    if e.func.attr == "union" and is_gen(e.args[0]):
+                        return inner + ["gen"]
+                    if e.func.attr == "difference" and is_kill(e.args[0]):
+                        return inner + ["kill"]
+                    return None
+                if isinstance(e, ast.Name) and e.id == live:
+                    return []
+                return None
+            sq = seq(e)
+            if sq is None:
+                raise AnchorError(fi.short, f"RW-DEFS [{role}]: `{norm(n)[:80]}` is not a gen/kill update the tables describe")
+            for k in sq:
+                events.append((order_key(n), len(events), k, n))
+        elif isinstance(n, ast.AugAssign):
+            k = "gen" if isinstance(n.op, ast.BitOr) and is_gen(n.value) else ("kill" if isinstance(n.op, ast.Sub) and is_kill(n.value) else None)
+            if k is None:
+                raise AnchorError(fi.short, f"RW-DEFS [{role}]: `{norm(n)[:80]}` is not a gen/kill update the tables describe")
+            events.append((order_key(n), len(events), k, n))
+        else:
+            c = n.value
+            k = "gen" if c.func.attr == "update" and c.args and is_gen(c.args[0]) else ("kill" if c.func.attr in ("discard", "remove", "difference_update") and c.args and is_kill(c.args[0]) else None)
+            if k is None:
+                raise AnchorError(fi.short, f"RW-DEFS [{role}]: `{norm(n)[:80]}` is not a gen/kill update the tables describe")
+            events.append((order_key(n), len(events), k, n))
+    events.sort(key=lambda t: (t[0], t[1]))
+    kinds = [k for _, _, k, _ in events]
+    if "gen" not in kinds:
+        raise AnchorError(fi.short, f"RW-DEFS [{role}]: no update adding the uses of `{exp}` to `{live}`")
+    if "kill" not in kinds:
+        ctx.ok("RW-DEFS", fi, role, "the live set only grows (conservative)", events[0][3])
+        return
+    first_gen, last_kill = kinds.index("gen"), len(kinds) - 1 - kinds[::-1].index("kill")
+    bad = last_kill > first_gen
+    n = events[last_kill][3]
+    ctx.check(not bad, "RW-DEFS", fi, role, f"updates of `{live}`: {kinds}", f"`{norm(n)[:80]}`: `{sym}` is removed from `{live}` AFTER the uses of its own definition were added, so a definition that reads the previous binding of the same symbol (`c = ITE(t, v, c)`, `a = a ^ b`) leaves that symbol dead: the earlier binding is dropped and the result reads an undefined or stale symbol", n)
